@@ -56,8 +56,9 @@ def f7c_symptom(la, lb):
         return False
     pos = [i for i in range(len(la)) if la[i] != lb[i]]
     fwd = 0
+    brk = '\n' + chr(0x85) + chr(0x2028) + chr(0x2029)
     for i in pos:
-        ls = la.rfind('\n', 0, i) + 1
+        ls = max(la.rfind(c, 0, i) for c in brk) + 1          # the line may have been started by NEL / LS / PS as well
         if la[ls:ls + 1] != ' ':
             return False        # the line is not more-indented / leading-space
         if la[i] == ' ' and lb[i] == '\n':
